@@ -770,8 +770,12 @@ func writeEvidence(prop, tier, level string, seed int64, a *aggT, wall, buildS f
 		"violations": violations,
 	}
 	b, _ := json.MarshalIndent(ev, "", " ")
-	os.MkdirAll(filepath.Join(verifDir, "evidence"), 0o755)
-	if err := os.WriteFile(filepath.Join(verifDir, "evidence", prop+".json"), b, 0o644); err != nil {
+	evDir := filepath.Join(verifDir, "evidence")
+	if d := os.Getenv("VERIF_EVIDENCE_DIR"); d != "" {
+		evDir = d // used when a seeded change is being evaluated: /verif/evidence stays that of the real tree
+	}
+	os.MkdirAll(evDir, 0o755)
+	if err := os.WriteFile(filepath.Join(evDir, prop+".json"), b, 0o644); err != nil {
 		die(2, "writing evidence: %v", err)
 	}
 }
@@ -831,8 +835,54 @@ func cmdSelftest(args []string) {
 	fmt.Println("selftest: ok")
 }
 
+// rewriterSelftest runs the repository's own service tests against the rewritten copy with the simulator in
+// pass-through mode: the rewrites must not change what the package does.
+func rewriterSelftest() error {
+	instr := ensureTools()
+	tmp, err := os.MkdirTemp("", "verif-rwtest-")
+	if err != nil {
+		return err
+	}
+	defer os.RemoveAll(tmp)
+	env := goEnv()
+	simDir := filepath.Join(verifDir, "sim")
+	if out, err := run(simDir, env, instr, "-src", filepath.Join(repoDir, "service"), "-dst", filepath.Join(tmp, "service"), "-meta", filepath.Join(tmp, "service.json")); err != nil {
+		return fmt.Errorf("instrument: %v\n%s", err, out)
+	}
+	rep := map[string]string{}
+	ents, _ := os.ReadDir(filepath.Join(tmp, "service"))
+	for _, e := range ents {
+		rep[filepath.Join(simDir, "gen", "service", e.Name())] = filepath.Join(tmp, "service", e.Name())
+	}
+	tests, _ := filepath.Glob(filepath.Join(repoDir, "service", "*_test.go"))
+	for _, t := range tests {
+		rep[filepath.Join(simDir, "gen", "service", filepath.Base(t))] = t
+	}
+	ob, _ := json.Marshal(map[string]any{"Replace": rep})
+	overlay := filepath.Join(tmp, "overlay.json")
+	os.WriteFile(overlay, ob, 0o644)
+	bin := filepath.Join(tmp, "service.test")
+	if out, err := run(simDir, env, goExe, "test", "-c", "-vet=off", "-overlay", overlay, "-o", bin, "./gen/service"); err != nil {
+		return fmt.Errorf("building service tests against the rewritten copy failed: %v\n%s", err, out)
+	}
+	out, err := run(filepath.Join(repoDir, "service"), env, bin, "-test.count=1")
+	if err != nil {
+		return fmt.Errorf("service tests against the rewritten copy failed: %v\n%s", err, out)
+	}
+	fmt.Printf("selftest: rewriter: service's own tests pass against the rewritten copy (pass-through mode): %s", lastLine(out))
+	return nil
+}
+
+func lastLine(s string) string {
+	ls := strings.Split(strings.TrimSpace(s), "\n")
+	return ls[len(ls)-1] + "\n"
+}
+
 // selftest: determinism of the simulator (same seed -> same event-log hash across processes and GOMAXPROCS).
 func selftest(full bool) error {
+	if err := rewriterSelftest(); err != nil {
+		return err
+	}
 	bi := ensureBinary("det")
 	propsList := []string{"C04"}
 	count, reps := 40, 2
